@@ -8,6 +8,7 @@ import (
 	"bytes"
 	"encoding/json"
 	"fmt"
+	"math"
 	"math/rand"
 	"os"
 	"sort"
@@ -538,7 +539,17 @@ func wrapMain(args []string) error {
 							if tr == 0 && cont {
 								continue
 							}
+							widths := make([]int, 0, total+5)
 							for w := 0; w <= total+1; w++ {
+								widths = append(widths, w)
+							}
+							// "unlimited" widths, as callers pass them (a seeded third of each)
+							for _, hw := range []int{1<<25 - 1, 1 << 25, math.MaxInt32} {
+								if rng.Intn(3) == 0 {
+									widths = append(widths, hw)
+								}
+							}
+							for _, w := range widths {
 								// the full cross product is kept for the core class; for the other
 								// classes and the secondary knobs a seeded sample keeps the volume down
 								api, delta, notrim := "para", 0, false
@@ -549,6 +560,9 @@ func wrapMain(args []string) error {
 									api, delta = "next", -1
 								} else if pick == 2 {
 									notrim = true
+								}
+								if w > total+1 && delta != 0 {
+									delta = 0 // keep width+delta inside 32 bits (TLC integers)
 								}
 								if mode == "ls" && !full && rng.Intn(6) != 0 {
 									continue
